@@ -1,3 +1,4 @@
 /- C04 — domain complementarity: theorems are in Props/C04Dom.lean. -/
 import DsdVerif.Props.C04Dom
 import DsdVerif.Props.PyExprs
+import DsdVerif.Props.C04Full
